@@ -25,7 +25,7 @@ def _chunks(tier):
 
 CASES = {t: _chunks(t) + RANDOM_CASES[t] for t in LMAX}
 SHARDS = {"quick": 8, "thorough": 16}
-TIMEOUT = {"quick": 240, "thorough": 7000}
+TIMEOUT = {"quick": 900, "thorough": 9000}
 ANCHORS = ["w3c.py:is_w3c_prefix", "w3c.py:is_w3c_curie", "w3c.py:_is_w3c_luid"]
 DECIDING = ["w3c:is_w3c_prefix", "w3c:is_w3c_curie"]
 REPO_TESTS = True
